@@ -88,8 +88,16 @@ func (k *KeyperEnv) Run(u *Universe, c *Case, msg *p2pmsg.DecryptionKeys) Obs {
 	e := <-k.free
 	e.srv.Update(func(db *fakepg.DB) {
 		db.KeyperSet = db.KeyperSet[:0]
-		for _, eon := range u.Eons() {
-			db.KeyperSet = append(db.KeyperSet, *u.KeyperSet(c, eon, c.LastAnn()))
+		// the observer upserts the keyper set row of an eon: the row of the message's eon holds the
+		// last set announced for it (no announcement: no row); "O": a row for the other eon
+		if last := c.LastAnn(); last != "" {
+			db.KeyperSet = append(db.KeyperSet, *u.KeyperSet(c, msg.Eon, last))
+		}
+		for _, kind := range c.Ann {
+			if kind == "O" {
+				db.KeyperSet = append(db.KeyperSet, *u.KeyperSet(c, u.OtherEon(msg.Eon), "S"))
+				break
+			}
 		}
 		db.SlotDecryptionSignatures = nil
 		db.DecryptionSignatures = nil
